@@ -113,6 +113,8 @@ if __name__ == "__main__":
     ROOT = os.path.dirname(os.path.dirname(os.path.abspath(__file__)))
     sys.path.insert(0, os.path.join(ROOT, "lib"))
     import c19_program  # noqa: E402  (imports synapgrad after the wrappers are in place)
+    import synapgrad as _sg
+    wrap_fn(_sg, "synapgrad", "empty")          # layers call synapgrad.empty(...) through the package attribute at call time
     res = c19_program.run(a.seed, 0, 1, 0)
     out = {"sites": [list(k) + [v] for k, v in sorted(SITES.items())], "n_items": len(res["items"])}
     sys.stdout.write("\n@@TRACE@@" + json.dumps(out) + "\n")
